@@ -31,6 +31,9 @@ type jCombo struct {
 	Ext     string   `json:"ext"`
 	Pct     []tr.Amt `json:"pct"`
 	Sur     []tr.Amt `json:"sur"`
+	// Stale: a percentage (and surcharge) the input still carries although the rate key says exempt
+	// (a document calculated before and then edited); it must be dropped, the specification never looks at it
+	Stale []tr.Amt `json:"stale,omitempty"`
 }
 type jRow struct {
 	Total tr.Amt   `json:"total"`
@@ -182,6 +185,14 @@ func taxBuild(c taxCase) (ev taxEvent, total *tax.Total) {
 				cb.Percent = &p
 			} else {
 				cb.Rate = "exempt"
+				if len(jc.Stale) > 0 {
+					p := toPct(jc.Stale[0])
+					cb.Percent = &p
+					if len(jc.Stale) > 1 {
+						q := toPct(jc.Stale[1])
+						cb.Surcharge = &q
+					}
+				}
 			}
 			if len(jc.Sur) > 0 {
 				p := toPct(jc.Sur[0])
@@ -294,6 +305,12 @@ func taxRandomCase(r *rand.Rand) taxCase {
 			switch r.Intn(8) {
 			case 0:
 				cb.Pct = []tr.Amt{} // exempt
+				switch r.Intn(3) {
+				case 0:
+					cb.Stale = []tr.Amt{{V: tr.BigOfInt(21), E: 2}}
+				case 1:
+					cb.Stale = []tr.Amt{{V: tr.BigOfInt(21), E: 2}, {V: tr.BigOfInt(52), E: 3}}
+				}
 			case 1:
 				cb.Sur = []tr.Amt{{V: tr.BigOfInt(52), E: 3}}
 			case 2:
